@@ -641,9 +641,97 @@ def rule_final_step(chk, prog):
     (r.bad("turn pruning off for restricted end points", fn.loc(bad[0]), bad[1]) if bad else r.ok("turn pruning off for restricted end points", fn.loc(clears[0])))
 
 
+def rule_segment_completion(chk, prog):
+    """When the scan reaches the end of a horizontal candidate segment: who may finish it."""
+    from ..rules.guards import path_condition, atoms, entails
+    from ..cfg import CFG
+    r = chk.rule("SEGMENT-COMPLETION", "intersectSegments (building the orthogonal visibility graph): a horizontal candidate segment is taken off the "
+                 "list only when the sweep is strictly past its end, or exactly at its end AND the current vertical segment covers its y (so "
+                 "that the junction at its end has been inserted) -- several disjoint vertical segments may share that x, and one that does not "
+                 "reach the line must leave it for the one that does; on both paths the segment's edges are generated before it is erased", floor=2)
+    fn = prog.fn("Avoid::intersectSegments")
+    g = CFG(fn)
+    ers = [c for c in calls(fn) if str(c.get("cname", "")).endswith("::erase") and call_object(c) is not None and norm(call_object(c)) == "segments"]
+    if len(ers) < 2:
+        raise AnalysisBroken("intersectSegments: the two erase sites were not found")
+    A = lambda s_: ("atom", s_)
+    want = ("or", A("(vertLine.pos > horiLine.finish)"),
+            ("and", A("(vertLine.pos == horiLine.finish)"), ("and", A("(vertLine.begin <= horiLine.pos)"), A("(vertLine.finish >= horiLine.pos)"))))
+    for c in ers:
+        r.count()
+        pc = path_condition(fn, c, inline=True, early=True)
+        bad = None
+        if not entails(pc, want):
+            bad = "the segment is erased under %s: at its end x it may be finished by a vertical segment that does not reach its y, before the one " \
+                  "that does has inserted the junction" % show_short(pc)
+        else:
+            gen = [x for x in calls(fn) if x.get("cname") == "Avoid::LineSegment::generateVisibilityEdgesFromBreakpointSet"]
+            blk = [a for a in fn.ancestors(c) if a.get("k") == "CompoundStmt"][0]
+            if not any(any(y is x for y in walk(blk)) for x in gen):
+                bad = "the segment is erased without its visibility edges having been generated in that branch"
+        (r.bad if bad else r.ok)("erase at line %s" % c.get("l"), fn.loc(c), bad or "")
+
+
+def rule_visdirs_temporary(chk, prog):
+    """The widening of an end point's directions on the outside of the scene belongs to ONE graph construction."""
+    from ..astq import writes, written_field
+    r = chk.rule("WIDENED-DIRS-TEMPORARY", "generateStaticOrthogonalVisGraph: fixConnectionPointVisibilityOnOutsideOfVisibilityGraph ORs extra directions "
+                 "into the visDirections of connector end vertices that lie on the outermost scan positions; the vertices outlive the graph, so "
+                 "the caller records every end vertex's requested directions before the first such call (a loop over all connector vertices) and "
+                 "assigns them back on every path to its end -- otherwise an end point restricted to one direction keeps the extra directions "
+                 "in all later transactions and routes differently from a fresh router on the same scene", floor=2)
+    fn = prog.fn("Avoid::generateStaticOrthogonalVisGraph")
+    g = CFG(fn)
+    fixes = [c for c in calls(fn) if c.get("cname") == "Avoid::fixConnectionPointVisibilityOnOutsideOfVisibilityGraph"]
+    if not fixes:
+        r.count()
+        r.ok("no widening", fn.where(), "the graph construction no longer widens end-point directions (clause vacuous)")
+        return
+    fld = "Avoid::VertInf::visDirections"
+    saves = []
+    for n in fn.nodes():
+        if n.get("k") == "MemberExpr" and n.get("ref") == fld:
+            lps = [a for a in fn.ancestors(n) if a.get("k") == "ForStmt"]
+            if lps and "connsBegin()" in norm(lps[0].get("init")) and not any(strip(lhs) is n for lhs, node, op in writes(fn)):
+                saves.append((n, lps[0]))
+    restores = [node for lhs, node, op in writes(fn) if written_field(lhs)[0] == fld and op == "="]
+    r.count()
+    bad = None
+    if not saves:
+        bad = "the requested directions of the connector end vertices are not recorded before they are widened"
+    else:
+        heads = [x["id"] for x in walk(saves[0][1].get("cond") or {}) if x.get("id") in g.pos]
+        for c in fixes:
+            if g.must_precede(heads, c["id"]) is not None:
+                bad = bad or "a widening call at line %s can be reached before the directions were recorded" % c.get("l")
+    (r.bad if bad else r.ok)("directions recorded first", fn.loc(saves[0][0]) if saves else fn.loc(fixes[0]), bad or "")
+    r.count()
+    bad = None
+    if not restores:
+        bad = "the widened directions are never assigned back"
+    else:
+        lps = [a for a in fn.ancestors(restores[0]) if a.get("k") == "ForStmt"]
+        heads = [x["id"] for x in walk((lps[0].get("cond") if lps else None) or {}) if x.get("id") in g.pos] or [restores[0]["id"]]
+        for c in fixes:
+            w = g.must_follow(c["id"], heads)
+            if w is not None:
+                bad = bad or "after the widening call at line %s a path leaves the function without restoring the directions (%s)" % (c.get("l"), g.describe(w))
+        if lps and g.iteration_can_skip(lps[0], [restores[0]["id"]]) is not None:
+            bad = bad or "the restoring loop can skip a vertex"
+    (r.bad if bad else r.ok)("directions restored", fn.loc(restores[0]) if restores else fn.where(), bad or "")
+
+
+def show_short(pc):
+    from ..rules.guards import show
+    return show(pc)[:220]
+
+
 def run(chk):
     prog = chk.load()
-    from .c04 import rule_astar
+    from .c04 import rule_astar, rule_cost
+    chk.guard(rule_segment_completion, chk, prog)
+    chk.guard(rule_visdirs_temporary, chk, prog)
+    chk.guard(rule_cost, chk, prog)               # the cost the orthogonal search minimises: length + segmentPenalty * bends, nothing else
     chk.guard(rule_final_step, chk, prog)
     chk.guard(rule_cost_targets, chk, prog)
     chk.guard(rule_segment_list, chk, prog)
